@@ -14,6 +14,9 @@ import Driver.StackGeom
 import Driver.KTable
 import Driver.UnitMap
 import Driver.UserPool
+import Driver.Barrier
+import Driver.Eventual
+import Driver.Future
 
 def main (args : List String) : IO UInt32 := do
   match args with
@@ -34,4 +37,8 @@ def main (args : List String) : IO UInt32 := do
   | ["ktable"] => Driver.KTable.main; return 0
   | ["unitmap"] => Driver.UnitMap.main; return 0
   | ["userpool"] => Driver.UserPool.main; return 0
+  | ["barrier"] => Driver.Barrier.main; return 0
+  | ["xbarrier"] => Driver.Barrier.xmain; return 0
+  | ["eventual"] => Driver.Eventual.main; return 0
+  | ["future"] => Driver.Future.main; return 0
   | _ => IO.eprintln "usage: driver <model>  (htable)"; return 2
